@@ -231,6 +231,24 @@ static void suite_c09(void)
             if (memcmp(a, b, 12) || g1 != v || g2 != v) violation("C09", "VSS length accessors 9-bit", cs, "v=%llu dedicated read %llu generic read %llu", (unsigned long long)v, (unsigned long long)g1, (unsigned long long)g2);
         }
     }
+    /* ... also as the second of two writes: every ordered pair of values, every pair of write paths (a buffer is reused) */
+    {
+        int fmt = fmt_index("Vss"); const RowField* L = fld(fmt, "acf_msg_length");
+        int li = (int)(L - g_fmts[fmt].f);
+        for (uint64_t v1 = 0; v1 < 512; v1++) {
+            if (!my_unit()) continue;
+            if (g_lite && v1 % 17 > 1 && v1 != 255 && v1 != 256 && v1 != 511) continue;
+            for (uint64_t v2 = 0; v2 < 512; v2++) for (int pp = 0; pp < 4; pp++) {
+                uint8_t a[12], e[12]; memset(a, 0, 12); memset(e, 0, 12);
+                SETCS("C09", 2, (long long)v1, (long long)v2, pp, 0, 0, 0);
+                rset(e, L, v1); rset(e, L, v2);
+                volatile uint64_t g1 = 0;
+                TRY_CALL({ w_set((uint64_t)fmt, (uint64_t)li, (uint64_t)(pp & 1), a, v1); w_set((uint64_t)fmt, (uint64_t)li, (uint64_t)(pp >> 1), a, v2); g1 = w_get((uint64_t)fmt, (uint64_t)li, 1, a); }, { g1 = ~0ull; });
+                g_cnt.cases++; g_cnt.transitions += 3; g_cnt.nontrivial++;
+                if (memcmp(a, e, 12) || g1 != v2) violation("C09", "VSS length accessors: second write to a reused header", cs, "wrote %llu then %llu (%s then %s): read %llu", (unsigned long long)v1, (unsigned long long)v2, pp & 1 ? "dedicated" : "by-id", pp >> 1 ? "dedicated" : "by-id", (unsigned long long)g1);
+            }
+        }
+    }
     sample("C09 Avtp_Vss_Pad(pdu, 1033) on a message of exactly 1036 bytes pre-filled with FF ending at a PROT_NONE page: acf_msg_length must become 259, pad 3, bytes 1033..1035 zero, everything else unchanged");
 }
 
@@ -288,6 +306,13 @@ static void c13_value(int h, uint64_t x)
         g_cnt.transitions++;
         if (r3 != r || memcmp(t3, img, (size_t)n)) { snprintf(key, sizeof key, "%s without predefined byte-order macros", BO_NAME[h]); violation("C13", key, cs, "x=0x%llx: compiled without __BYTE_ORDER__ gives 0x%llx, with it 0x%llx", (unsigned long long)x, (unsigned long long)r3, (unsigned long long)r); }
     }
+    /* the same helpers in a translation unit that included the system's own byte-order headers first */
+    if (w_bo4) {
+        uint8_t t4[8] = {0}; volatile uint64_t r4 = 0;
+        TRY_CALL(r4 = w_bo4((uint64_t)h, x, t4), { r4 = ~r; });
+        g_cnt.transitions++;
+        if (r4 != r || memcmp(t4, img, (size_t)n)) { snprintf(key, sizeof key, "%s after the system byte-order headers", BO_NAME[h]); violation("C13", key, cs, "x=0x%llx: in a unit that includes <byteswap.h>/<endian.h>/<arpa/inet.h> first 0x%llx, otherwise 0x%llx", (unsigned long long)x, (unsigned long long)r4, (unsigned long long)r); }
+    }
     /* mirror images: the helper set of the other host-order branch (w_bo2) is this set with Le/Be exchanged */
     {
         int mh = kind == 0 ? h : (kind == 1 || kind == 3) ? h + 3 : h - 3;
@@ -320,11 +345,37 @@ static void c13_lattice(int h)
     }
 }
 
+/* literal arguments: the result for the constant must equal the result for the same value passed at run time (which
+ * c13_value checks against the reference) */
+static void c13_constants(void)
+{
+    int nk = (int)w_boc(99, 0, NULL);
+    for (int h = 0; h < 15; h++) for (int k = 0; k < nk; k++) {
+        int n = bo_bytes(h);
+        uint64_t m = n == 8 ? ~0ull : ((1ull << (8 * n)) - 1);
+        uint64_t x = w_boc(98, (uint64_t)k, NULL) & m;
+        uint8_t ic[8] = {0}, ir[8] = {0}; volatile uint64_t rc = 0, rr = 0;
+        SETCS("C13", 2, h, k, 0, 0, 0, (long long)x);
+        g_cnt.cases++; g_cnt.nontrivial++;
+        TRY_CALL({ rc = w_boc((uint64_t)h, (uint64_t)k, ic); rr = w_bo((uint64_t)h, x, ir); }, { rc = ~rr; });
+        g_cnt.transitions += 2;
+        tr_add(rc);
+        if (rc != rr || memcmp(ic, ir, (size_t)n)) { char key[96]; snprintf(key, sizeof key, "%s with a literal argument", BO_NAME[h]); violation("C13", key, cs, "x=0x%llx: literal argument gives 0x%llx, run-time argument 0x%llx", (unsigned long long)x, (unsigned long long)rc, (unsigned long long)rr); }
+        c13_value(h, x);
+        if (w_bo4c) {
+            uint8_t i4[8] = {0}; volatile uint64_t r4 = 0;
+            TRY_CALL(r4 = w_bo4c((uint64_t)h, (uint64_t)k, i4), { r4 = ~rr; });
+            if (r4 != rr || memcmp(i4, ir, (size_t)n)) { char key[96]; snprintf(key, sizeof key, "%s with a literal argument after the system byte-order headers", BO_NAME[h]); violation("C13", key, cs, "x=0x%llx: 0x%llx, expected 0x%llx", (unsigned long long)x, (unsigned long long)r4, (unsigned long long)rr); }
+        }
+    }
+}
+
 static void suite_c13(void)
 {
     uint8_t img[8];
     w_bo(7, 0x01020304, img);          /* CpuToBe32 must give 01 02 03 04 in any world; the probe below finds the world's own order */
     g_world_big = (int)w_world_id();
+    if (my_unit()) c13_constants();
     for (int h = 0; h < 15; h++) {
         if (bo_bytes(h) == 4 && g_thorough) {
             /* all 2^32 values, split over the slices */
@@ -363,7 +414,7 @@ int main(int argc, char** argv)
         for (int k = 0; k < 8 && (tok = strtok(NULL, ":")); k++) p[k] = k == 6 ? (long long)strtoull(tok, NULL, 16) : atoll(tok);
         if (!strcmp(su, "C06")) { g_src_shift = (int)p[4]; c06_case((int)p[1], (int)p[2], (int)p[3]); }
         else if (!strcmp(su, "C09")) { if (p[0] == 0) c09_case((int)p[1], (int)p[2], (int)p[3]); else { g_unit = 0; g_nslices = 1; suite_c09(); } }
-        else if (!strcmp(su, "C13")) { g_world_big = (int)w_world_id(); c13_value((int)p[1], (uint64_t)p[6]); }
+        else if (!strcmp(su, "C13")) { g_world_big = (int)w_world_id(); if (p[0] == 2) c13_constants(); else c13_value((int)p[1], (uint64_t)p[6]); }
         else replay_ser2(su, p);
         emit_counters(su);
         return g_cnt.violations ? 1 : 0;
